@@ -32,6 +32,11 @@ def sh(cmd, cwd=None, env=None):
 
 
 def main() -> int:
+    if "VERIF_SNAP" not in os.environ:
+        sys.path.insert(0, os.path.join(VERIF, "tools"))
+        from _snap import snapshot
+
+        os.environ["VERIF_SNAP"] = snapshot()
     srcdir, k = sys.argv[1], sys.argv[2]
     keep = sys.argv[sys.argv.index("--keep") + 1] if "--keep" in sys.argv else None
     diff = os.path.join(srcdir, f"refactor{k}.diff")
@@ -63,7 +68,7 @@ def main() -> int:
         noisy, detail = [], {}
         tmpo = tempfile.mkdtemp(prefix="verif-twinout-")
         for p in CLAIMED:
-            rc, out = sh(f"/venv/bin/python -m sa.check {p} --root {wt} --out {tmpo}/out --evidence {tmpo}/ev", cwd=VERIF)
+            rc, out = sh(f"/venv/bin/python -m sa.check {p} --root {wt} --out {tmpo}/out --evidence {tmpo}/ev", cwd=os.environ.get("VERIF_SNAP", VERIF))
             if rc != 0:
                 noisy.append(f"{p}:{rc}")
                 detail[p] = [l.strip()[:300] for l in out.splitlines() if l.startswith("  R") or "ANALYSIS-ERROR" in l][:3]
